@@ -7,10 +7,20 @@
 //   - concurrent histories: 8 worker goroutines send EventStoreMemSet/Commit/Rollback/Get
 //     to a real store module through the queue; every operation is stamped with the
 //     logical time of its invocation and of its reply.
+//
+// The histories run in CHILD processes (child.go): the store serves every request in a goroutine
+// of its own, so a panic of the implementation there cannot be recovered and kills the process.
+// The parent re-executes this binary with "--extra child", hands it a batch of jobs and reads
+// one event per line (history header, operation about to start, reply, finished case).  When a
+// child dies, the history it was working on is run again alone in a fresh process; if it dies
+// again the history is emitted as a case whose operation in flight has the reply "crashed"
+// (OCrashed in Check.v: never predicted by the model, rejected by the specification oracle),
+// with everything observed before the crash kept.
 package main
 
 import (
 	"encoding/hex"
+	"encoding/json"
 	"fmt"
 	"os"
 	"path/filepath"
@@ -29,7 +39,8 @@ import (
 
 // ---------- history description (also the replay format) ----------
 
-// Op kinds: memset, set, commit, rollback, get, restart, foreign, count.
+// Op kinds: memset, set, commit, rollback, get, restart, foreign, count, idle (nothing: only
+// recorded when the process died while no operation was in flight).
 type Op struct {
 	T    string   `json:"t"`
 	R    int      `json:"r,omitempty"`  // root token (parent for memset/set); -1 = result of the previous op of the program
@@ -40,7 +51,7 @@ type Op struct {
 
 // Out: what the implementation answered.
 type Out struct {
-	C    string `json:"c"`              // root, vals, notexist, notfound, panic, other, unit, num
+	C    string `json:"c"`              // root, vals, notexist, notfound, panic, other, unit, num, crashed
 	Tok  int    `json:"tok,omitempty"`  // for root
 	Vals []int  `json:"vals,omitempty"` // 0 = nil/empty, i+1 = value i
 	N    int    `json:"n,omitempty"`
@@ -93,6 +104,9 @@ func scratchBase() string {
 func newRunner(h *History) *runner {
 	dirSeq++
 	base := filepath.Join(scratchBase(), fmt.Sprintf("hC04-%d-%d", os.Getpid(), dirSeq))
+	if d := os.Getenv(scratchEnv); d != "" { // a child: below the directory the parent removes
+		base = filepath.Join(d, fmt.Sprint(dirSeq))
+	}
 	os.RemoveAll(base)
 	r := &runner{h: h, dir: filepath.Join(base, "main"), fdir: filepath.Join(base, "foreign"), toks: map[string]int{}}
 	for _, k := range h.Keys {
@@ -106,6 +120,7 @@ func newRunner(h *History) *runner {
 	r.toks[""] = 0
 	r.toks[string(make([]byte, 32))] = 1
 	r.hashes = [][]byte{nil, make([]byte, 32)}
+	sink.begin(h) // before the store is opened: a crash in there belongs to this history
 	r.open()
 	return r
 }
@@ -293,7 +308,28 @@ func firstLine(s string) string {
 
 // ---------- main ----------
 
-func emit(out *hlib.Out, r *runner, v *view, conc bool) {
+// caseRec: one finished case (what goes to cases.jsonl).
+type caseRec struct {
+	Kind       string          `json:"kind"`
+	Nontrivial bool            `json:"nontrivial"`
+	Coq        string          `json:"coq"`
+	Input      json.RawMessage `json:"input"`
+	Impl       json.RawMessage `json:"impl"`
+}
+
+func caseKind(h *History, conc bool) string {
+	kind := h.Kind
+	if h.Prefix {
+		kind += "+prefix"
+	}
+	if h.Queue && !conc {
+		kind += "+queue"
+	}
+	return kind
+}
+
+// the case of a history that ran to its end (child side)
+func finished(r *runner, v *view, conc bool) caseRec {
 	r.h.Ops = nil
 	if !conc {
 		r.h.Ops = r.steps
@@ -302,61 +338,97 @@ func emit(out *hlib.Out, r *runner, v *view, conc bool) {
 	if v != nil {
 		nontrivial = v.nontrivial()
 	}
-	kind := r.h.Kind
-	if r.h.Prefix {
-		kind += "+prefix"
-	}
-	if r.h.Queue && !conc {
-		kind += "+queue"
-	}
-	out.Emit(kind, nontrivial, r.coqCase(conc), r.h, r.outs)
+	in, _ := json.Marshal(r.h)
+	impl, _ := json.Marshal(r.outs)
+	c := caseRec{Kind: caseKind(r.h, conc), Nontrivial: nontrivial, Coq: r.coqCase(conc), Input: in, Impl: impl}
 	r.cleanup()
+	return c
+}
+
+// Job: one history to produce; the child generates it from the seed (generation follows the
+// implementation's replies) or re-runs the recorded one.
+type Job struct {
+	Type string   `json:"type"` // fixed, replay, seq, reexec, conc
+	Kind string   `json:"kind,omitempty"`
+	Seed uint64   `json:"seed,omitempty"`
+	Nops int      `json:"nops,omitempty"`
+	Unr  bool     `json:"unr,omitempty"`
+	H    *History `json:"h,omitempty"`
+}
+
+func (j Job) conc() bool {
+	return j.Type == "conc" || (j.H != nil && len(j.H.Phases) > 0)
+}
+
+func runJob(j Job) caseRec {
+	switch j.Type {
+	case "fixed", "replay":
+		if len(j.H.Phases) > 0 {
+			return finished(replayConc(j.H), nil, true)
+		}
+		r, v := runRecorded(j.H)
+		return finished(r, v, false)
+	case "seq":
+		r, v := genSeq(hlib.NewRng(j.Seed), j.Kind, j.Nops, j.Unr)
+		return finished(r, v, false)
+	case "reexec":
+		r, v := genReexec(hlib.NewRng(j.Seed), j.Kind, j.Nops)
+		return finished(r, v, false)
+	case "conc":
+		return finished(genConc(hlib.NewRng(j.Seed)), nil, true)
+	}
+	panic("hC04: unknown job type " + j.Type)
 }
 
 func main() {
 	opts := hlib.ParseFlags()
 	clog.SetLogLevel("crit")
+	if opts.Extra == "child" {
+		childMain()
+		return
+	}
 	out := hlib.NewOut(opts.OutDir)
 	defer out.Close()
+	sup := newSupervisor(out)
 	if opts.Replay != "" {
 		var h History
 		if err := hlib.ReplayInput(opts.Replay, &h); err != nil {
 			fmt.Fprintln(os.Stderr, "replay:", err)
 			os.Exit(2)
 		}
-		if len(h.Phases) > 0 {
-			r := replayConc(&h)
-			emit(out, r, nil, true)
-		} else {
-			r, v := runRecorded(&h)
-			emit(out, r, v, false)
-		}
+		sup.run([]Job{{Type: "replay", H: &h}}, 1, 1)
+		sup.flush()
 		return
 	}
 	rng := hlib.NewRng(opts.Seed)
+	var seq, conc []Job
 	for _, h := range fixedHistories() {
-		r, v := runRecorded(h)
-		emit(out, r, v, false)
+		seq = append(seq, Job{Type: "fixed", H: h})
 	}
-	nSmall, nMed, nUnr, nConc := 60, 40, 30, 40
+	nSmall, nMed, nUnr, nRe, nConc, batch := 60, 40, 30, 48, 40, 24
 	if opts.Thorough() {
-		nSmall, nMed, nUnr, nConc = 600, 500, 300, 600
+		nSmall, nMed, nUnr, nRe, nConc, batch = 600, 500, 300, 600, 600, 60
+	}
+	rrng := hlib.NewRng(opts.Seed ^ 0x5eed04) // own stream: the older streams keep their histories
+	for i := 0; i < nRe; i++ {                 // small ones first
+		seq = append(seq, Job{Type: "reexec", Kind: "reexec", Seed: rrng.U64(), Nops: rrng.Range(3, 9)})
 	}
 	for i := 0; i < nSmall; i++ {
-		r, v := genSeq(rng.Fork(), "guarded-small", rng.Range(3, 7), false)
-		emit(out, r, v, false)
+		seq = append(seq, Job{Type: "seq", Kind: "guarded-small", Seed: rng.U64(), Nops: rng.Range(3, 7)})
 	}
 	for i := 0; i < nMed; i++ {
-		r, v := genSeq(rng.Fork(), "guarded-medium", rng.Range(8, 16), false)
-		emit(out, r, v, false)
+		seq = append(seq, Job{Type: "seq", Kind: "guarded-medium", Seed: rng.U64(), Nops: rng.Range(8, 16)})
 	}
 	for i := 0; i < nUnr; i++ {
-		r, v := genSeq(rng.Fork(), "unrestricted", rng.Range(5, 12), true)
-		emit(out, r, v, false)
+		seq = append(seq, Job{Type: "seq", Kind: "unrestricted", Seed: rng.U64(), Nops: rng.Range(5, 12), Unr: true})
 	}
 	for i := 0; i < nConc; i++ {
-		r := genConc(rng.Fork())
-		emit(out, r, nil, true)
+		conc = append(conc, Job{Type: "conc", Seed: rng.U64()})
 	}
-	fmt.Printf("hC04: %d cases\n", out.Count())
+	// sequential histories: two children at a time with two threads each; the concurrent ones
+	// afterwards, one child with four threads (the machine is shared: at most 4 cores)
+	sup.run(seq, batch, 2)
+	sup.run(conc, batch, 1)
+	sup.flush()
+	fmt.Printf("hC04: %d cases, %d child processes, %d crashed histories\n", out.Count(), sup.nchild, sup.ncrash)
 }
